@@ -40,8 +40,8 @@ EXTENDS Integers, Sequences, FiniteSets, TLC, Json
 PC == INSTANCE PrintConc WITH
         ModulePrinters <- {}, FuncPrinters <- {}, BlockPrinters <- {}, NG <- 0, NF <- 0, NL <- 0, MdCase <- 0,
         WriteOnlyIfChanged <- TRUE, StartPrinted <- TRUE, CachePrefilled <- TRUE,
-        LockGlobals <- TRUE, LockLocals <- TRUE, GCachePrefilled <- TRUE, FillGlobalCachesUnderLock <- FALSE,
-        gid <- <<>>, mid <- <<>>, lid <- <<>>, typ <- <<>>, gtyp <- <<>>, mmu <- 0, fmu <- <<>>, bad <- <<>>,
+        LockGlobals <- TRUE, LockLocals <- TRUE, GCachePrefilled <- TRUE, FillGlobalCachesUnderLock <- FALSE, SharedScratch <- FALSE,
+        gid <- <<>>, mid <- <<>>, lid <- <<>>, typ <- <<>>, gtyp <- <<>>, scratch <- 0, mmu <- 0, fmu <- <<>>, bad <- <<>>,
         pc <- <<>>, c <- <<>>, f <- <<>>, last <- <<>>, tmp <- <<>>
 
 Trace == ndJsonDeserialize("printconc_trace.ndjson")
